@@ -41,6 +41,8 @@ var sgFuel = map[string][]string{
 	// kmpDeduplicate: the scan over the ring (the model's fuel + 1: the model reports a negative restart index one
 	// iteration before the Go code indexes with it), the reverse scan, the corpus expansion
 	"kmpDeduplicate": {"(S (kmpFuel v_ring))", "(length v_visitedPoints)", "(length v_ring + 2)%nat"},
+	// cleanupNewRing: the loop that drops the closing vertices left by spike removal shortens the ring every time
+	"cleanupNewRing": {"(S (length v_newRing))"},
 }
 
 const (
@@ -57,11 +59,12 @@ const (
 	stSeqmap = "seqmap" // *sortedmap.SortedMap[string, [2]int]: the micro-model of Snap/Model.v
 	stEntry  = "entry"  // a key of that map, read together with its value
 	stView   = "view"   // the result of X.Map(), only usable as mmap[key]
+	stSets   = "sets"   // the three results (outerRings, innerRings, pointsAndLines [][][2]float64) = ringSets
 )
 
 var sgCoq = map[string]string{stInt: "Z", stBool: "bool", stPt: "pt", stPts: "(list pt)", stInts: "(list Z)",
 	stRings: "(list (list pt))", stPtPtr: "(option pt)", stIPair: "(Z * Z)%type", stSeqmap: "seqmap",
-	stEntry: "(list pt * (Z * Z))%type"}
+	stEntry: "(list pt * (Z * Z))%type", stSets: "ringSets"}
 
 // helpers of snap.go whose whole body is a panic: the error value of the model
 var sgPanics = map[string]string{"panicNoPointsFoundForVertices": "NoPointsFound"}
@@ -149,6 +152,8 @@ type sg struct {
 	generic       map[string]string // type parameters of the function being translated -> the type they stand for
 	pkgs          map[string]string // import name -> path (slices, fmt, sortedmap, mapslicehelp)
 	dedup         bool              // the constructs of kmpDeduplicate / RemoveSequences are enabled
+	cleanup       bool              // cleanupNewRing: splitRing as the model's, (hitMultiple, ringIdx) as isMulti
+	multiParams   [2]string         // the names of the two parameters that together are isMulti
 	cur           *sgSig
 	n             int
 	loopN         int
@@ -576,6 +581,35 @@ func (g *sg) call(env *sgEnv, x *ast.CallExpr, binds *[]string) (sgVal, error) {
 			return v, err
 		}
 	}
+	if g.cleanup {
+		if id, ok := x.Fun.(*ast.Ident); ok && id.Name == "splitRing" {
+			// splitRing(ring, isOuter, hitMultiple, ringIdx): the model's splitRing; (hitMultiple, ringIdx) only
+			// decide which vertices count as hit by several rings = the model's predicate isMulti
+			if _, shadow := env.vars[id.Name]; shadow || g.funcs["splitRing"] == nil || len(x.Args) != 4 {
+				return sgVal{}, fmt.Errorf("unsupported call of splitRing")
+			}
+			want := "func(ring [][2]float64, isOuter bool, hitMultiple map[intgeom.Point][]int, ringIdx int) (outerRings, innerRings, pointsAndLines [][][2]float64)"
+			if got := types.ExprString(g.funcs["splitRing"].Type); got != want {
+				return sgVal{}, fmt.Errorf("splitRing has the signature %s", got)
+			}
+			r, err := g.expr(env, x.Args[0], binds)
+			if err != nil {
+				return sgVal{}, err
+			}
+			o, err := g.expr(env, x.Args[1], binds)
+			if err != nil {
+				return sgVal{}, err
+			}
+			h, ok1 := x.Args[2].(*ast.Ident)
+			i, ok2 := x.Args[3].(*ast.Ident)
+			if r.ty != stPts || o.ty != stBool || !ok1 || !ok2 || h.Name != g.multiParams[0] || i.Name != g.multiParams[1] {
+				return sgVal{}, fmt.Errorf("splitRing: unsupported arguments")
+			}
+			t := g.fresh("t")
+			*binds = append(*binds, fmt.Sprintf("do %s <- splitRing %s %s isMulti;", t, r.code, o.code))
+			return sgVal{code: t, ty: stSets}, nil
+		}
+	}
 	if sel, ok := x.Fun.(*ast.SelectorExpr); ok {
 		if pkg, ok := sel.X.(*ast.Ident); ok {
 			key := pkg.Name + "." + sel.Sel.Name
@@ -824,6 +858,20 @@ func (g *sg) stmts(env *sgEnv, list []ast.Stmt, k lcont, ctx *sgCtx) (string, er
 		switch {
 		case len(s.Results) == 0 && g.cur.result == "":
 			return ctx.ret("v_" + g.cur.params[g.cur.mutated].name), nil
+		case len(s.Results) == 3 && g.cur.result == stSets:
+			var binds []string
+			var parts []string
+			for _, r := range s.Results {
+				v, err := g.expr(env, r, &binds)
+				if err != nil {
+					return "", err
+				}
+				if v, err = g.conv(v, stRings); err != nil {
+					return "", fmt.Errorf("return: %v", err)
+				}
+				parts = append(parts, v.code)
+			}
+			return sgJoin(binds, ctx.ret("(mkSets "+strings.Join(parts, " ")+")")), nil
 		case len(s.Results) == 1 && g.cur.result != "":
 			var binds []string
 			v, err := g.expr(env, s.Results[0], &binds)
@@ -1368,6 +1416,11 @@ func (g *sg) signature(fd *ast.FuncDecl) (*sgSig, error) {
 			switch types.ExprString(f.Type) {
 			case "[2][2]float64", "pointindex.Level":
 				t = stOpaque
+			case "map[intgeom.Point][]int": // only handed on to splitRing, together with ringIdx
+				if !g.cleanup {
+					return nil, err
+				}
+				t = stOpaque
 			default:
 				return nil, err
 			}
@@ -1376,6 +1429,10 @@ func (g *sg) signature(fd *ast.FuncDecl) (*sgSig, error) {
 			return nil, fmt.Errorf("unnamed parameter")
 		}
 		for _, n := range f.Names {
+			if g.cleanup && n.Name == g.multiParams[1] && t == stInt {
+				sig.params = append(sig.params, lfield{n.Name, stOpaque})
+				continue
+			}
 			sig.params = append(sig.params, lfield{n.Name, t})
 		}
 	}
@@ -1419,6 +1476,24 @@ func (g *sg) signature(fd *ast.FuncDecl) (*sgSig, error) {
 			}
 			sig.resultName = fd.Type.Results.List[0].Names[0].Name
 		}
+	case g.cleanup && len(fd.Type.Results.List) == 1 && len(fd.Type.Results.List[0].Names) == 3 &&
+		types.ExprString(fd.Type.Results.List[0].Type) == "[][][2]float64":
+		// (outerRings, innerRings, pointsAndLines [][][2]float64): supported when the names are never used
+		names := map[string]bool{}
+		for _, n := range fd.Type.Results.List[0].Names {
+			names[n.Name] = true
+		}
+		used := false
+		ast.Inspect(fd.Body, func(n ast.Node) bool {
+			if id, ok := n.(*ast.Ident); ok && names[id.Name] {
+				used = true
+			}
+			return true
+		})
+		if used {
+			return nil, fmt.Errorf("named results that are used are not supported")
+		}
+		sig.result, sig.retTy = stSets, stSets
 	default:
 		return nil, fmt.Errorf("unsupported result list")
 	}
@@ -1444,6 +1519,9 @@ func (g *sg) function(name string) error {
 		}
 		if p.ty == stOpaque { // not a parameter of the generated function
 			env.vars[p.name] = stOpaque
+			if g.cleanup && p.name == g.multiParams[0] {
+				params = append(params, "(isMulti : pt -> bool)")
+			}
 			continue
 		}
 		env.declare(p.name, p.ty)
